@@ -202,33 +202,6 @@ theorem snapshot_nodup_partial (ridOf : Key → Nat) (srt : List Entry → List 
 
 /-! ### the scopes built by `CreateInformers` -/
 
-theorem dedupNames_nodup (l : List Nat) : (dedupNames l).Nodup := by
-  induction l with
-  | nil => simp [dedupNames]
-  | cons n t ih =>
-    simp only [dedupNames, List.nodup_cons]
-    exact ⟨by simp, ih.filter _⟩
-
-theorem mem_dedupNames (l : List Nat) (n : Nat) : n ∈ dedupNames l ↔ n ∈ l := by
-  induction l with
-  | nil => simp [dedupNames]
-  | cons a t ih =>
-    simp only [dedupNames, List.mem_cons, List.mem_filter, decide_eq_true_eq, ih]
-    by_cases h : n = a <;> simp [h]
-
-/-- The informers `CreateInformersForNamespace` builds for one namespace from a duplicate-free name
-list cannot see the same object. -/
-theorem createForNs_apart (cfg : Cfg) (names : List Nat) (hn : names.Nodup)
-    (list : Option Nat → Option Nat → List Obj) (ns : Option Nat) :
-    (createForNs cfg names list ns).Pairwise (fun i j => scopesApart i j = true) := by
-  unfold createForNs
-  by_cases he : names.isEmpty = true
-  · simp [he]
-  · simp only [he, Bool.false_eq_true, if_false, List.pairwise_map]
-    refine hn.imp ?_
-    intro a b hab
-    cases ns <;> simp [scopesApart, hab]
-
 /-- **repaired code**: static informers are created for the de-duplicated namespaces × the
 de-duplicated names, hence pairwise disjoint. -/
 theorem static_scopes_disjoint (cfg : Cfg) (names nss : List Nat)
@@ -265,6 +238,103 @@ theorem dup_names_witness :
   refine ⟨?_, by decide, by decide⟩
   intro h
   simp [ScopesDisjoint, Monitor.informers, createForNs, scopesApart] at h
+
+theorem pred_inScope (mc : MonCfg) (i : Informer) (o : Obj) (h : mc.pred i.ns i.name o = true) :
+    i.inScope (mkEntry mc.cfg o).key = true := by
+  rw [mkEntry_key]
+  unfold MonCfg.pred at h
+  unfold Informer.inScope
+  simp only [Bool.and_eq_true] at h ⊢
+  exact ⟨h.1.1.1.2, h.1.1.2⟩
+
+/-- **C02.2 `snapshot_nodup`** (full strength, repaired code) For every binding configuration
+(duplicates in `matchNames` included), every initial cluster and every history of StartMonitor,
+object writes/deletes and namespace creations/relabellings/deletions, `Snapshot()` lists no object
+twice, is ordered by the key, and every element is the binding's filter applied to an object of
+the binding's kind and selectors. The `ScopesDisjoint` hypothesis of `snapshot_nodup_partial` is
+discharged by the invariant `MInv` of reachable monitors. -/
+theorem snapshot_nodup (ridOf : Key → Nat) (srt : List Entry → List Entry) (hs : SortContract ridOf srt)
+    (mc : MonCfg) (w0 : World) (steps : List MStep) :
+    KeysNodup Entry.key ((runMonitor mc w0 steps).m.snapshot srt) ∧
+    ((runMonitor mc w0 steps).m.snapshot srt).Pairwise
+      (fun a b => lessKey mc.cfg.keepFull ridOf b.key a.key = false) ∧
+    ∀ e ∈ (runMonitor mc w0 steps).m.snapshot srt, ∃ o, e = mkEntry mc.cfg o ∧ mc.pred none none o = true := by
+  have hinv := minv_run mc w0 steps
+  generalize (runMonitor mc w0 steps).m = m at hinv
+  have hmem : ∀ e ∈ m.allEntries, ∃ i ∈ m.informers, e ∈ i.cache := by
+    intro e he
+    rw [allEntries_eq] at he
+    simp only [cachesOf, List.mem_flatten, List.mem_map] at he
+    obtain ⟨l, ⟨i, hi, rfl⟩, hel⟩ := he
+    exact ⟨i, hi, hel⟩
+  have hu : Uniform mc.cfg.keepFull m.allEntries := by
+    intro e he
+    obtain ⟨i, hi, hei⟩ := hmem e he
+    obtain ⟨o, rfl, _⟩ := (hinv.good i hi).2 e hei
+    exact mkEntry_isSome _ _
+  have hsc : InScope m := by
+    intro i hi e he
+    obtain ⟨o, rfl, hp⟩ := (hinv.good i hi).2 e he
+    exact pred_inScope mc i o hp
+  refine ⟨snapshot_nodup_partial ridOf srt hs _ m hu (minv_scopesDisjoint mc m hinv) hsc
+      (fun i hi => (hinv.good i hi).1), (snapshot_eq_sorted_union ridOf srt hs _ m hu).2.1, ?_⟩
+  intro e he
+  obtain ⟨i, hi, hei⟩ := (snapshot_eq_sorted_union ridOf srt hs _ m hu).2.2 e |>.1 he
+  obtain ⟨o, rfl, hp⟩ := (hinv.good i hi).2 e hei
+  refine ⟨o, rfl, ?_⟩
+  unfold MonCfg.pred at hp ⊢
+  simp only [Bool.and_eq_true] at hp ⊢
+  exact ⟨⟨⟨⟨hp.1.1.1.1, trivial⟩, trivial⟩, hp.1.2⟩, hp.2⟩
+
+/-- … and for such a monitor the result does not depend on any iteration order or sorting routine
+(the hypotheses of `snapshot_perm_invariant` other than the injectivity of the resource-id
+rendering are discharged). -/
+theorem snapshot_perm_invariant_reachable (ridOf : Key → Nat) (srt₁ srt₂ : List Entry → List Entry)
+    (h₁ : SortContract ridOf srt₁) (h₂ : SortContract ridOf srt₂)
+    (mc : MonCfg) (w0 : World) (steps : List MStep)
+    (reads₁ reads₂ : List (List Entry))
+    (hr₁ : ReadOrder (runMonitor mc w0 steps).m reads₁) (hr₂ : ReadOrder (runMonitor mc w0 steps).m reads₂)
+    (hinj : ∀ a b : Key, ridOf a = ridOf b → a = b) :
+    srt₁ reads₁.flatten = srt₂ reads₂.flatten := by
+  have hinv := minv_run mc w0 steps
+  generalize (runMonitor mc w0 steps).m = m at hinv hr₁ hr₂
+  have hmem : ∀ e ∈ m.allEntries, ∃ i ∈ m.informers, e ∈ i.cache := by
+    intro e he
+    rw [allEntries_eq] at he
+    simp only [cachesOf, List.mem_flatten, List.mem_map] at he
+    obtain ⟨l, ⟨i, hi, rfl⟩, hel⟩ := he
+    exact ⟨i, hi, hel⟩
+  have hgood : ∀ e ∈ m.allEntries, ∃ o, e = mkEntry mc.cfg o ∧ o.key.kind = mc.kind := by
+    intro e he
+    obtain ⟨i, hi, hei⟩ := hmem e he
+    obtain ⟨o, rfl, hp⟩ := (hinv.good i hi).2 e hei
+    refine ⟨o, rfl, ?_⟩
+    unfold MonCfg.pred at hp
+    simp only [Bool.and_eq_true, beq_iff_eq] at hp
+    exact hp.1.1.1.1
+  have hu : Uniform mc.cfg.keepFull m.allEntries := by
+    intro e he
+    obtain ⟨o, rfl, _⟩ := hgood e he
+    exact mkEntry_isSome _ _
+  have hnd : KeysNodup Entry.key m.allEntries := by
+    rw [allEntries_eq]
+    refine keysNodup_flatten_caches m.informers (minv_scopesDisjoint mc m hinv) ?_ (fun i hi => (hinv.good i hi).1)
+    intro i hi e he
+    obtain ⟨o, rfl, hp⟩ := (hinv.good i hi).2 e he
+    exact pred_inScope mc i o hp
+  refine snapshot_perm_invariant ridOf srt₁ srt₂ h₁ h₂ _ m reads₁ reads₂ hr₁ hr₂ hu ?_ ?_
+    (key_determines_of_nodup hnd)
+  · intro a ha b hb
+    obtain ⟨o, rfl, h1⟩ := hgood a ha
+    obtain ⟨o', rfl, h2⟩ := hgood b hb
+    rw [mkEntry_key, mkEntry_key, h1, h2]
+  · intro a _ b _ h
+    exact hinj _ _ h
+
+example : (runMonitor { cfg := { keepFull := true, flt := id, chk := id }, kind := 1, names := [7, 7], nss := [1, 1] }
+      { objs := [⟨⟨1, 1, 7⟩, 5, 0⟩], nss := [(1, 0)] }
+      [.start, .obj (.set ⟨⟨1, 1, 7⟩, 6, 0⟩)]).m.snapshot (modelSort (fun k => k.name))
+    = [⟨⟨1, 1, 7⟩, some 6, 6, 6⟩] := by decide
 
 /-- The sorting routine the executable model uses meets the contract assumed of `sort.Sort` (so
 the contract is satisfiable and the driver's answers are covered by the theorems above). -/
